@@ -93,7 +93,12 @@ Definition run_cases (g gfh : Z) (cs : list ccase) : list (Z * Z * Z * Z) :=
    skind 3: crash image of the first start through NewChainService (the four
             steps first_steps_b ++ first_steps_f; [skinds] is the header-store
             sub-sequence of the steps the real constructor performed), reopened
-            through NewChainService.
+            through NewChainService;
+   skind 4: an ORDINARY crash image (the state after [sprefix], crash after
+            [sk] durable steps of [scop], torn [storn]) reopened WITH the
+            assertion [sassert], which must not trigger: the result must be
+            what the plain constructor yields (C08_assert_no_reset_is_plain_open),
+            i.e. the state before or after [scop].
    The image is reopened with the assertion ([swith]) or without; [sopened]
    says whether the real constructors succeeded; [spost] is the dump and the
    follow-up append on the reopened stores. *)
@@ -101,6 +106,7 @@ Record scase := {
   sid : Z;
   skind : Z;
   sprefix : list (op * obs);
+  scop : op;                 (* skind 4: the interrupted operation *)
   sfilter : bool;
   sassert : option (Z * Z);
   sk : Z;
@@ -123,9 +129,11 @@ Fixpoint judge (als : list alog) (i0 : Z) (tr : list (op * obs)) : option Z :=
   end.
 
 (* root-cause code: 41 first start, 42 state reset, 43 assertion that must not
-   trigger, 44 first start through NewChainService *)
+   trigger, 44 first start through NewChainService, 45 ordinary crash image
+   reopened with an assertion that must not trigger *)
 Definition stag (c : scase) : Z :=
-  if skind c =? 0 then 41 else if skind c =? 1 then 42 else if skind c =? 3 then 44 else 43.
+  if skind c =? 0 then 41 else if skind c =? 1 then 42 else if skind c =? 3 then 44
+  else if skind c =? 4 then 45 else 43.
 
 Definition sverdict (g gfh : Z) (c : scase) : list (Z * Z * Z * Z) :=
   match init g gfh with
@@ -141,12 +149,14 @@ Definition sverdict (g gfh : Z) (c : scase) : list (Z * Z * Z * Z) :=
        let img :=
          if skind c =? 0 then first_start_crash g gfh (sfilter c) k (storn c)
          else if skind c =? 3 then first_start_crash_cs g gfh k (storn c)
+         else if skind c =? 4 then crash_state s (steps_of s (scop c)) k (storn c)
          else if skind c =? 1 then
            (if assertion_resets (ff s) (sassert c) then reset_crash g gfh s k (storn c) else None)
          else (if assertion_resets (ff s) (sassert c) then None else Some s) in
        let ds :=
          if skind c =? 0 then (if sfilter c then first_steps_f g gfh else first_steps_b g)
          else if skind c =? 3 then first_steps_b g ++ first_steps_f g gfh
+         else if skind c =? 4 then steps_of s (scop c)
          else if skind c =? 1 then reset_steps gfh g else [] in
        (if list_eqb (map step_kind ds) (skinds c) then [] else [(sid c, 1, np, 0)]) ++
        match img with
@@ -170,7 +180,9 @@ Definition sverdict (g gfh : Z) (c : scase) : list (Z * Z * Z * Z) :=
       let after := {| bl := bl a; fl := [gfh] |} in
       let allowed :=
         if skind c =? 1 then after :: (if (sk c =? 0) && negb (swith c) then [a] else [])
+        else if skind c =? 4 then [a; fst (astep a (scop c))]
         else [a] in
+      if (skind c =? 4) && negb (wf_opb a (scop c)) then [] else
       if sopened c then
         match judge allowed (np + 1) (spost c) with
         | Some i => [(sid c, 2, i, stag c)]
